@@ -69,6 +69,13 @@ Theorem C14_upstream_alias_refuted :
 Proof. exact upstream_alias_refuted. Qed.
 Print Assumptions C14_upstream_alias_refuted.
 
+(* Array(ptr, n, copy = false) adopts the caller's block: the state is the one the initializer-list constructor
+   builds from the same values (no element is constructed by the library), so the theorems above apply to every
+   history continuing from it. *)
+Theorem C14_adopt_is_list_state : forall vals, adopt vals = fst (ctor_list vals).
+Proof. exact adopt_is_list_state. Qed.
+Print Assumptions C14_adopt_is_list_state.
+
 Example C14_nonvacuous :
   map view_arr (arr_trace afixed true aenv0 [[3;0;7;8;9];[4;1;0];[11;1;0;5];[9;0;1];[10;0;3;4];[12;0];[12;1]])
   = [(Some [], [3;7;8;9;-1;-1]); (Some [], [3;7;8;9;3;7;8;9;-1]); (Some [], [3;7;8;9;3;5;8;9;-1]);
